@@ -4,6 +4,7 @@
 import Fx.Eval
 import Fx.XGen
 import Fx.GenDriver
+import Fx.OutputOk
 namespace Fx
 
 structure Loaded where
@@ -63,6 +64,21 @@ def genvalRequest (st : DState) (f : List String) : String :=
           else "skip"
         | _ => "no-spec")
      | _, _, _ => "bad-op")
+  | _ => "bad-op"
+
+/-- `outputok <hex text>`: the judgement that stands in for rustc, and `Plans.Ok` -/
+def outputOkRequest (f : List String) : String :=
+  match f with
+  | [h] =>
+    (match textOfHex h with
+     | some t =>
+       (match Ast.new t with
+        | .ok a =>
+          (match generateModule a with
+           | .ok m => "ok outputok=" ++ toString (outputOk a m) ++ " plansok=" ++ toString m.plans.Ok
+           | _ => "nogen")
+        | _ => "nogen")
+     | none => "bad-op")
   | _ => "bad-op"
 
 end Fx
